@@ -121,7 +121,7 @@ func NewWorld(seed uint64) *World {
 		mrng:       NewRand(Mix(seed, 2)),
 		urng:       NewRand(Mix(seed, 3)),
 		done:       make(chan struct{}),
-		MaxSteps:   400000,
+		MaxSteps:   5000000,
 		MaxSimTime: 1000 * time.Hour,
 		digest:     1469598103934665603,
 		Stats:      map[string]int{},
